@@ -32,6 +32,25 @@ func genDataset(r *Rng, dir string, tag string) string {
 		return x
 	}
 
+	// adverse data sets: some action rows make things WORSE (actioned value above the original, a negative
+	// opportunity cost), so that activation is not monotone in any variable; legal input all the same
+	adverse := r.Chance(0.35)
+	if adverse {
+		tag += "adv_"
+	}
+	worse := func(orig float64, d int, better float64) float64 {
+		if adverse && r.Chance(0.4) {
+			return round(orig*(1+r.Float()*0.6), d)
+		}
+		return round(orig*better, d)
+	}
+	opp := func(v float64) float64 {
+		if adverse && r.Chance(0.25) {
+			return -v
+		}
+		return v
+	}
+
 	var sub, gul, act strings.Builder
 	sub.WriteString("Subcatchment,DownstreamId,ChannelLength,ChannelSlope,BankfullFlow,ChannelWidth,ChannelDepth,FloodplainWidth,ProportionOfRiparianVegetation,SubcatchmentArea,RiparianBufferArea,HillslopeArea\n")
 	gul.WriteString("Identifier,Subcatchment,Volume,ChannelLengh\n")
@@ -57,8 +76,8 @@ func genDataset(r *Rng, dir string, tag string) string {
 		if ng > 0 || r.Chance(0.15) { // a Gully action row (sometimes without any gully: no action is built)
 			pn := round(r.Float()*2, 6)
 			dn := round(r.Float()*0.01, 9)
-			fmt.Fprintf(&act, "%d,Gully,%s,%s,%s,%s,0,0,0,0,%s,%s,0,0,0\n", p, f(float64(r.Intn(3))*round(r.Float()*9000, 0)), f(round(r.Float()*200000, pickInt(r, 0, 0, 2))),
-				f(pn), f(round(pn*r.Float(), 6)), f(dn), f(round(dn*r.Float(), 9)))
+			fmt.Fprintf(&act, "%d,Gully,%s,%s,%s,%s,0,0,0,0,%s,%s,0,0,0\n", p, f(opp(float64(r.Intn(3))*round(r.Float()*9000, 0))), f(round(r.Float()*200000, pickInt(r, 0, 0, 2))),
+				f(pn), f(worse(pn, 6, r.Float())), f(dn), f(worse(dn, 9, r.Float())))
 		}
 		if r.Chance(0.8) { // Hillslope row; zero erosion rows build no action but still seed nitrogen attributes
 			ero := pick(0, 0, 11.7133, 1267.84, 9.17471, round(r.Float()*500, 3), 0.004)
@@ -67,14 +86,14 @@ func genDataset(r *Rng, dir string, tag string) string {
 				pn = round(r.Float()*10, 6)
 			}
 			dn := round(r.Float()*5, 6)
-			fmt.Fprintf(&act, "%d,Hillslope,%s,%s,%s,%s,%s,%s,0,0,%s,%s,0,0,0\n", p, f(round(r.Float()*90000, 0)), f(round(r.Float()*4e6, pickInt(r, 0, 0, 2))),
-				f(pn), f(round(pn*r.Float(), 6)), f(ero), f(round(ero*r.Float()*0.2, 4)), f(dn), f(round(dn*(0.8+0.2*r.Float()), 6)))
+			fmt.Fprintf(&act, "%d,Hillslope,%s,%s,%s,%s,%s,%s,0,0,%s,%s,0,0,0\n", p, f(opp(round(r.Float()*90000, 0))), f(round(r.Float()*4e6, pickInt(r, 0, 0, 2))),
+				f(pn), f(worse(pn, 6, r.Float())), f(ero), f(worse(ero, 4, r.Float()*0.2)), f(dn), f(worse(dn, 6, 0.8+0.2*r.Float())))
 		}
 		if r.Chance(0.85) { // Riparian row (an action exists only when veg < target)
 			fo := round(0.1+r.Float()*0.1, 6)
 			dn := round(r.Float()*1e-6, 12)
 			fmt.Fprintf(&act, "%d,Riparian,%s,%s,0,0,0,0,%s,%s,%s,%s,%s,0,0\n", p, f(round(r.Float()*7000, 0)), f(round(r.Float()*900000, pickInt(r, 0, 0, 2))),
-				f(fo), f(round(0.1+r.Float()*0.15, 6)), f(dn), f(round(dn*r.Float(), 12)), f(pick(0.632175983, 0.5, 0.9, 0)))
+				f(fo), f(round(0.1+r.Float()*0.15, 6)), f(dn), f(worse(dn, 12, r.Float())), f(pick(0.632175983, 0.5, 0.9, 0)))
 		}
 		if r.Chance(0.4) { // Wetland row
 			fmt.Fprintf(&act, "%d,Wetland,%s,%s,0,0,0,0,0,0,0,0,%s,%s,%s\n", p, f(round(r.Float()*20000, 0)), f(round(r.Float()*2.5e6, pickInt(r, 0, 0, 2))),
